@@ -28,27 +28,16 @@ M = "api::Muxer::<Writer>::"
 TICKS = {M + "write_video": [("pts", 1)], M + "write_video_with_dts": [("pts", 1), ("dts", 2)], M + "write_audio": [("pts", 1)]}
 
 
-def check(prog, run):
-    run.rule("R1", "tick = cast_u64(round(own timestamp parameter * 90000.0)); no state in the slice")
-    run.rule("R2", "duration back-patch = this - previous of the monotone timestamp, stored to last sample and last-delta; previous := same parameter")
-    run.rule("R3", "fall-back duration of the final sample is the track's own last delta (C01.R5)")
-    run.rule("R4", "mdhd duration = sum of the durations list that feeds the same trak's stts")
-    run.rule("R5", "composition offset = pts - dts; ctts present iff some offset != 0 (fold over the written offsets)")
-    run.rule("R6", "run-length tables: a run is extended only on exact equality with the current element; otherwise a new run (1, element) is pushed")
-    rle_rule(prog, run)
-    try:
-        m = c01.Model(prog)
-    except (AnchorMissing, L.Unanalysable) as e:
-        run.bad("R1", "anchor", str(e))
-        return
+def duration_rule(m, run, R="R2"):
+    """per-sample durations are the differences of the submitted (monotone) timestamps: back-patched into the previous record for every
+    next sample, mirrored in the last-delta field, previous := the same parameter; records enter the queue without a duration of
+    their own.  Shared with C09 (each track's timeline is then the submitted one, which is what keeps the two tracks in step)."""
     cx, u = m.cx, m.cx.u
-    tick_rule(cx, run, "R1")
-    # ---- R2
     for q, kind in ((m.vq, "video"), (m.aq, "audio")):
         w = m.writer_of[q]
         b = u.bodies.get(w)
         if b is None:
-            run.bad("R2", kind + " writer", "not found")
+            run.bad(R, kind + " writer", "not found")
             continue
         mono = m.mono[q][0]
         sites = [s for s in cx.st.sites[w] if s[3].startswith("assign") and s[2][0] == ("arg", 1)]
@@ -65,15 +54,15 @@ def check(prog, run):
             ok = len(subs) == 1 and subs[0][2][0] == "arg" and subs[0][3][0] == "load" and subs[0][3][1].startswith("arg1.")
             if ok:
                 param, prev = subs[0][2], subs[0][3][1].split(".")[1]
-        run.check(ok, "R2", "%s duration" % kind, "prev.duration = Some((%s - self.%s) as u32)" % (param[2] if param else "?", prev), "previous sample's duration is %s" % [sym.show(e)[:100] for _, e in deltas], mir.loc_of(deltas[0][0][4]) if deltas else None)
+        run.check(ok, R, "%s duration" % kind, "prev.duration = Some((%s - self.%s) as u32)" % (param[2] if param else "?", prev), ("previous sample's duration is %s" % [sym.show(e)[:100] for _, e in deltas]) if deltas else "the %s writer no longer stores `this timestamp - previous timestamp` into the previous sample's duration (no plain store to `.duration` of the queue's last record): sample durations come from somewhere else than the submitted timestamps" % kind, mir.loc_of(deltas[0][0][4]) if deltas else None)
         if not ok:
             continue
         # the same delta goes to the last-delta field; prev := Some(param)
         same = [s for s in sites if len(s[2][1]) == 1 and s[2][1][0] not in (q, prev) and sym.expr_rv(b, s[4]["rv"]) == deltas[0][1]]
-        run.check(len(same) == 1, "R2", "%s last-delta" % kind, "self.%s = the same delta" % (same[0][2][1][0] if same else "?"), "no state field receives the same delta as the patched duration (fallback for the final sample)")
+        run.check(len(same) == 1, R, "%s last-delta" % kind, "self.%s = the same delta" % (same[0][2][1][0] if same else "?"), "no state field receives the same delta as the patched duration (fallback for the final sample)")
         pst = [s for s in sites if s[2][1] == (prev,)]
         good = len(pst) == 1 and any(x == param for x in sym.walk(sym.expr_rv(b, pst[0][4]["rv"])))
-        run.check(good, "R2", "%s prev-update" % kind, "self.%s = Some(%s)" % (prev, param[2]), "the previous-timestamp state is not updated from the parameter the delta is computed from")
+        run.check(good, R, "%s prev-update" % kind, "self.%s = Some(%s)" % (prev, param[2]), "the previous-timestamp state is not updated from the parameter the delta is computed from")
         # the back-patch happens for every next sample: its store is not conditional on the sample's own (still unset) duration, and a
         # record enters the queue without a duration of its own (it is only known when the next sample arrives)
         from .. import guards as _g
@@ -82,7 +71,7 @@ def check(prog, run):
         gsig = [_c04.signature(d_, t_) for (s_, d_, t_) in _g.guards_of(b, deltas[0][0][0])]
         _c04.CUR_BODY[:] = []
         cond = [x for x in gsig if "duration" in x]
-        run.check(not cond, "R2", "%s duration back-patch unconditional" % kind, "stored for every next sample",
+        run.check(not cond, R, "%s duration back-patch unconditional" % kind, "stored for every next sample",
                   "the previous sample's duration is back-patched only under `%s`: samples that already carry a duration keep it, so the timeline is no longer the submitted timestamp differences" % (cond[0] if cond else ""), mir.loc_of(deltas[0][0][4]))
         pushed = []
         for blk in b["blocks"]:
@@ -90,10 +79,29 @@ def check(prog, run):
                 if st_["k"] == "assign" and st_["rv"]["k"] == "aggregate" and st_["rv"].get("agg") == "adt" and "duration" in (st_["rv"].get("fields") or []) and "data" in (st_["rv"].get("fields") or []):
                     pushed.append(sym.expr(b, dict(zip(st_["rv"]["fields"], st_["rv"]["ops"]))["duration"]))
         good = bool(pushed) and all(x[0] == "agg" and str(x[1]).endswith("Option::None") for x in pushed)
-        run.check(good, "R2", "%s queued without duration" % kind, "duration: None until the next sample arrives",
+        run.check(good, R, "%s queued without duration" % kind, "duration: None until the next sample arrives",
                   "a sample is queued with a duration of its own (%s) instead of the difference to the next submitted timestamp" % [sym.show(x)[:60] for x in pushed])
         # param feeds the monotone field of the queued record
-        run.check(bool(mono), "R2", "%s monotone-field" % kind, "writer enforces monotone %s" % sorted(mono), "no monotone timestamp found for the %s queue" % kind)
+        run.check(bool(mono), R, "%s monotone-field" % kind, "writer enforces monotone %s" % sorted(mono), "no monotone timestamp found for the %s queue" % kind)
+
+
+def check(prog, run):
+    run.rule("R1", "tick = cast_u64(round(own timestamp parameter * 90000.0)); no state in the slice")
+    run.rule("R2", "duration back-patch = this - previous of the monotone timestamp, stored to last sample and last-delta; previous := same parameter")
+    run.rule("R3", "fall-back duration of the final sample is the track's own last delta (C01.R5)")
+    run.rule("R4", "mdhd duration = sum of the durations list that feeds the same trak's stts")
+    run.rule("R5", "composition offset = pts - dts; ctts present iff some offset != 0 (fold over the written offsets)")
+    run.rule("R6", "run-length tables: a run is extended only on exact equality with the current element; otherwise a new run (1, element) is pushed")
+    rle_rule(prog, run)
+    try:
+        m = c01.Model(prog)
+    except (AnchorMissing, L.Unanalysable) as e:
+        run.bad("R1", "anchor", str(e))
+        return
+    cx, u = m.cx, m.cx.u
+    tick_rule(cx, run, "R1")
+    # ---- R2
+    duration_rule(m, run, "R2")
     # ---- R3 via C01.R5, R4, R5 on the A/V standard leaf and the video-only leaf
     seen = set()
     for lf in m.leaves:
